@@ -412,3 +412,63 @@ func c13OwnerAsWrapper(x *X, c *Chooser) {
 	x.State(fmt.Sprint(of.name, vt.name, when, target))
 	x.Nontrivial(fmt.Sprint(c.path))
 }
+
+// family "header-row-callbacks": the header row is a row of the table too.  The only public way to it is the
+// add-time ROW callback that sees it during AddHeaders; render-time callbacks registered on it then fire once per
+// pass (ITSELF/ROW) or once per header cell (CELL), like on any other row.
+type c13Capture struct{ rows []*tabular.Row }
+
+func (k *c13Capture) UpdateProperties(po tabular.PropertyOwner) error {
+	if r, ok := po.(*tabular.Row); ok {
+		k.rows = append(k.rows, r)
+	}
+	return nil
+}
+
+func c13HeaderRow(x *X, c *Chooser) {
+	nh := 1 + c.Choose(3)
+	when := []int{1, 3}[c.Choose(2)]
+	target := c.Choose(3)
+	bodyRows := c.Choose(3)
+	t := tabular.New()
+	capt := &c13Capture{}
+	if err := registerCB(t, t, 0, 2, capt); err != nil {
+		panic("harness: " + err.Error())
+	}
+	hs := make([]interface{}, nh)
+	for i := range hs {
+		hs[i] = fmt.Sprintf("h%d", i+1)
+	}
+	t.AddHeaders(hs...)
+	if len(capt.rows) != 1 {
+		// whether the table's add-time ROW callback sees the header row is not something the statement names
+		x.Note("header_row_not_handed_to_add_time_row_callback")
+		return
+	}
+	hdr := capt.rows[0]
+	for i := 0; i < bodyRows; i++ {
+		t.AddRowItems("a", "b")
+	}
+	cnt := &c13Counter{}
+	tags := []string{"header_row_callbacks", "reg:row/" + cbTimeNames[when] + "/" + cbTargetNames[target]}
+	if err := registerCB(t, hdr, when, target, cnt); err != nil {
+		x.Fail("C13.refused", tags, "registering %s/%s on the header row was refused: %v", cbTimeNames[when], cbTargetNames[target], err)
+		return
+	}
+	c.Logf("header of %d cells (row captured by a table ADD/ROW callback), %d body rows; %s/%s callback registered on the header row", nh, bodyRows, cbTimeNames[when], cbTargetNames[target])
+	per := 1
+	if target == 1 {
+		per = nh
+	}
+	for pass := 1; pass <= 2; pass++ {
+		t.InvokeRenderCallbacks()
+		x.Transition(1)
+		x.Clause("C13.once")
+		if cnt.n != pass*per {
+			x.Fail("C13.once", tags, "after pass %d the callback on the header row has fired %d times in total, want %d (%d per pass)", pass, cnt.n, pass*per, per)
+			return
+		}
+	}
+	x.State(fmt.Sprint("hdrrow", nh, when, target, bodyRows))
+	x.Nontrivial(fmt.Sprint(c.path))
+}
